@@ -231,19 +231,35 @@ def stackMapBytes (m : Bitmap) : Bytes := le32 1 ++ le32 m.n ++ m.b
 
 structure LoadTables where
   pcsp          : List Pcvalue
-  unsafePoint   : List Pcvalue
+  unsafePoint   : Option (List Pcvalue)     -- `none`: `fn.PcUnsafePoint` stays nil (no table, offset 0)
   stackMapIndex : List Pcvalue
   args          : Option Bitmap
   locals        : Option Bitmap
 
-/-- /repo/loader/loader_latest.go:38-82 (`PCDATA_UnsafePointSafe = -1`, `…Unsafe = -2`) -/
-def buildLoadFunc (noPreempt : Bool) (pcdata : List Pcvalue) (textSize : Nat)
+/-- the three values `buildLoadFunc` puts into its one-entry tables, read from the source by
+    go/factx_frames (`Generated.Frames.loadFuncFacts`): `{PC: textSize, Val: unsafeVal}` when
+    `noPreempt`, `{PC: textSize, Val: v}` for `safeVal = some v` otherwise (`none` = the else branch
+    builds no table), `{PC: textSize, Val: smiVal}` for the stack-map index -/
+structure LoadFuncFacts where
+  unsafeVal : Int
+  safeVal   : Option Int
+  smiVal    : Int
+deriving Repr, DecidableEq
+
+/-- /repo/loader/loader_latest.go:38-82 -/
+def buildLoadFunc (k : LoadFuncFacts) (noPreempt : Bool) (pcdata : List Pcvalue) (textSize : Nat)
     (argPtrs localPtrs : Option (List Bool)) : LoadTables :=
   { pcsp := pcdata
-    unsafePoint := [⟨textSize, if noPreempt then -2 else -1⟩]
-    stackMapIndex := [⟨textSize, 0⟩]
+    unsafePoint := if noPreempt then some [⟨textSize, k.unsafeVal⟩] else k.safeVal.map (fun v => [⟨textSize, v⟩])
+    stackMapIndex := [⟨textSize, k.smiVal⟩]
     args := argPtrs.map buildBitmap
     locals := localPtrs.map buildBitmap }
+
+/-- `runtime.pcdatavalue`: offset 0 ("no table", what `makePctab` records for a nil `*Pcdata`) reads as -1 -/
+def readPcdata (table : Option Bytes) (pc : Nat) : Option Int :=
+  match table with
+  | none => some (-1)
+  | some b => decodePcValue b pc
 
 /-! ## frame layouts (values come from `Generated/Frames.lean`) -/
 
@@ -329,5 +345,115 @@ def nativeOk (maxFrame : Nat) (f : NativeFn) : Bool :=
   decide (WellFormed f.pcsp) && f.stack ≤ maxFrame &&
   (match f.pcsp.getLast? with | some e => e.pc == f.size | none => f.size == 0) &&
   f.pcsp.all (fun e => e.val ≥ 0 && e.val ≤ (f.stack : Int))
+
+/-! ## `GetPcspTable` (internal/jit/backend.go:118-219): the pc-sp table derived from the instruction stream -/
+
+/-- what one assembled instruction does to SP, as `GetPcspTable` classifies it:
+    `push k` = PUSHQ/PUSHFQ (8), PUSHL (4), PUSHW (2), `ADJSP $k`, `SUBQ $k, SP`;
+    `pop k`  = POPQ/POPFQ (8), POPL (4), POPW (2), `ADDQ $k, SP`; `ret` = RET; `none` = anything else -/
+inductive SpEffect where
+  | none
+  | push (k : Int)
+  | pop (k : Int)
+  | ret
+deriving Repr, DecidableEq
+
+structure Ins where
+  size : Nat          -- `p.Isize`; pseudo-instructions (labels) have size 0
+  eff  : SpEffect
+deriving Repr, DecidableEq
+
+def codeSize (l : List Ins) : Nat := (l.map (·.size)).sum
+
+/-- the loop of `GetPcspTable` with its running `pc`, `deltasp`, `maxdepth`:
+    an entry `{PC: nextPc(p), Val: deltasp}` *before* the adjustment is applied; the first RET ends the
+    walk, and whatever follows it gets one entry `{PC: cursym.Size, Val: maxdepth}`;
+    `none` = `panic("unbalanced PUSH/POP")` -/
+def getPcspGo : List Ins → Nat → Int → Int → Option (List Pcvalue)
+  | [], _, _, _ => some []
+  | i :: rest, pc, d, m =>
+    let npc := pc + i.size
+    match i.eff with
+    | .none => getPcspGo rest npc d m
+    | .push k => (getPcspGo rest npc (d + k) (max m (d + k))).map (fun t => ⟨npc, d⟩ :: t)
+    | .pop k => (getPcspGo rest npc (d - k) m).map (fun t => ⟨npc, d⟩ :: t)
+    | .ret =>
+      if d ≠ 0 then none
+      else some (⟨npc, d⟩ :: (if rest.isEmpty then [] else [⟨npc + codeSize rest, m⟩]))
+
+def getPcspTable (l : List Ins) : Option (List Pcvalue) := getPcspGo l 0 0 0
+
+/-- SP displacement (bytes below the value at entry) before the instruction at `pc` executes, when
+    control reaches it by falling through from the entry: the sum of what the instructions that end
+    at or before `pc` did -/
+def linearDelta : List Ins → Nat → Nat → Int → Int
+  | [], _, _, d => d
+  | i :: rest, pc, target, d =>
+    if target < pc + i.size then d
+    else
+      let d' := match i.eff with
+        | .push k => d + k
+        | .pop k => d - k
+        | _ => d
+      linearDelta rest (pc + i.size) target d'
+
+/-- the code shape of sonic's three assemblers: `pre` (nothing touches SP), `SUBQ $n, SP`, `body`
+    (nothing touches SP), `ADDQ $n, SP`, `RET`, `tail` (out-of-line blocks, reached from the body) -/
+def frameCode (pre : List Ins) (s1 : Nat) (n : Int) (body : List Ins) (s2 s3 : Nat) (tail : List Ins) : List Ins :=
+  pre ++ (⟨s1, .push n⟩ :: (body ++ (⟨s2, .pop n⟩ :: ⟨s3, .ret⟩ :: tail)))
+
+def NoSp (l : List Ins) : Prop := ∀ i ∈ l, i.eff = SpEffect.none
+
+/-- what the frame really is at `pc` for that shape: 0 until the SUBQ has executed, `n` through the
+    body and the ADDQ itself, 0 at the RET, `n` in the tail, nothing past the end -/
+def regionDelta (a b c e : Nat) (n : Int) (pc : Nat) : Option Int :=
+  if pc < a then some 0 else if pc < b then some n else if pc < c then some 0 else if pc < e then some n else none
+
+/-- facts about the emitting code of one assembler, regenerated by go/factx_frames -/
+structure CodeShape where
+  name         : String
+  stages       : List String                       -- calls made by compile(), in order
+  firstInstr   : String × String                   -- (function, mnemonic) of the first instruction compile() emits
+  spWriters    : List (String × String × Int)      -- (function, mnemonic, immediate) of every instruction whose destination is SP
+  rets         : List String                       -- functions that emit RET
+  retFollowsAdd : Bool                             -- the statement after the `ADDQ $n, SP` is `Emit("RET")`
+  pushPops     : List (String × String)            -- PUSH*/POP*/ADJSP anywhere
+  otherSp      : List (String × String)            -- any other instruction with SP as destination
+  rawBytes     : List (List Nat)                   -- distinct literal `self.Byte(...)` sequences
+  spFnCalls    : List (String × Nat)               -- call sites of the functions holding the SUBQ / ADDQ / RET
+deriving Repr
+
+/-- raw byte sequences known not to touch SP: INT3, `LEAQ d32(PC), R9`, `LEAQ d32(PC), DI`, a zero
+    table entry -/
+def rawBytesAllowed : List (List Nat) := [[0xcc], [0x4c, 0x8d, 0x0d], [0x48, 0x8d, 0x3d], [0, 0, 0, 0]]
+
+/-- the emitted stream is `SUBQ $n, SP` first, then code that leaves SP alone, then exactly one
+    `ADDQ $n, SP; RET`, then code that leaves SP alone - i.e. `frameCode [] _ n body _ _ tail`:
+    * the first instruction `compile()` emits is the SUBQ;
+    * SUBQ / ADDQ with SP as destination occur once each, both with the frame size;
+    * RET occurs once, as the statement after the ADDQ; no PUSH/POP/ADJSP, no other write of SP;
+    * the functions holding them are stages of `compile()` called from nowhere else (or `compile` itself);
+    * raw byte sequences are known encodings that do not touch SP -/
+def CodeShape.ok (c : CodeShape) (frameSize : Nat) : Bool :=
+  c.firstInstr.2 == "SUBQ" &&
+  c.spWriters.length == 2 &&
+  c.spWriters.any (fun w => w.2.1 == "SUBQ" && w.1 == c.firstInstr.1 && w.2.2 == (frameSize : Int)) &&
+  c.spWriters.any (fun w => w.2.1 == "ADDQ" && c.rets.contains w.1 && w.2.2 == (frameSize : Int)) &&
+  c.rets.length == 1 && c.retFollowsAdd && c.pushPops.isEmpty && c.otherSp.isEmpty &&
+  c.spFnCalls.all (fun fc => (fc.1 == "compile" && fc.2 == 0 && c.stages.isEmpty) ||
+                             (fc.2 == 1 && (c.stages.filter (· == fc.1)).length == 1)) &&
+  (c.stages.isEmpty || c.stages.head? == some c.firstInstr.1) &&
+  c.rawBytes.all (fun b => rawBytesAllowed.contains b)
+
+/-- (field, offset, size, shape) -/
+abbrev FieldLayout := String × Nat × Nat × String
+
+/-- one access of the encoder's state stack in generated code: `disp(ST)(idx)` with the register moved -/
+structure StateAccess where
+  fn    : String      -- emitting function (save_state / drop_state)
+  op    : String      -- mnemonic, or `WritePtr` (store with write barrier)
+  reg   : String      -- the register variable on the other side (`_SP_x`, …, `_X0`)
+  disp  : Nat
+deriving Repr, DecidableEq
 
 end SonicSpec.Loader
